@@ -60,6 +60,10 @@ CHECKS = {
             "DESIGN.md §3 C15",
             "Sequential: all histories over {allocate, drop handle j, add object (implicit TOI), add object with handle j, publish+drain} to depth 6 (quick) / 8 (thorough) for every TOI width x initial values {0, 1, max-1, max, max+1, 2^112+5, u128::MAX} against a reference set of live TOIs, with the TOI decoded from the object's packets and the FDT entry compared with the value add_object returned; 14 complete laps of the 16-bit space with values held (wrap-around, skip of reserved values). Concurrent: loom explores every interleaving (preemption bound 3 in quick, unbounded in thorough) of three bodies on the real ToiAllocator compiled with loom's Mutex/Arc: live handles pairwise distinct, non-zero, in range; no deadlock; Send/Sync of Toi and Sender asserted at compile time.",
             "Trusted: loom's model of Mutex/Arc; the random default initial value is run 64 times and labelled sampling (it shares the code path of the explicit large values)."),
+    "C20": ("model_checking", "stateless deviation-bounded exploration of the size returned by every read() of a harness stream feeding the real Sender, differential oracle against the buffer source", "seqx",
+            "DESIGN.md §3 C20",
+            "For scheme x (E,B) x every L <= 3EB+2 x transfer count 1..2 x interleave, a real Sender fed by a harness stream whose every read size is an explorer choice among {everything, 1, 2, E+1} is explored with at most 2 (quick) / 3 (thorough) non-default answers, plus six fixed patterns (1-byte, 2-byte, E+1, alternating chunks, a real File, BufReader<File> with a 3-byte buffer); the complete packet sequence (both transfers) must be byte-identical to the same Sender fed the same bytes as a buffer.",
+            "Trusted: EXT_TIME switched off for the comparison; read-size alphabet and deviation bound."),
 }
 
 NOT_YET = {}
